@@ -61,15 +61,25 @@ void FeatureChecker::visitEdge(edge_t& edge)
 
 void FeatureChecker::visitGuard(expression_t& guard)
 {
+    if (guard.empty())
+        return;
     switch (guard.get_kind()) {
     case Constants::LT:
     case Constants::LE:
+    case Constants::GE:
+    case Constants::GT:
     case Constants::EQ:
+    case Constants::NEQ:
         for (size_t i = 0; i < guard.get_size(); ++i) {
             if (guard.get(i).uses_fp())
                 supported_methods.symbolic = false;
         }
-    default: break;
+        break;
+    default:
+        // the comparisons may sit anywhere below conjunctions, disjunctions, negations and quantifiers
+        for (size_t i = 0; i < guard.get_size(); ++i)
+            visitGuard(guard.get(i));
+        break;
     }
 }
 
@@ -95,6 +105,8 @@ void FeatureChecker::visitLocation(location_t& location)
         return;
     if (isRateDisallowedInSymbolic(invariant))
         supported_methods.symbolic = false;
+    auto inv = invariant;  // shares the nodes of the invariant
+    visitGuard(inv);
 }
 
 /**
